@@ -119,13 +119,20 @@ func UploadPartCopy(bucket, key, uploadID string, n int, srcBucket, srcKey, rng 
 type CPart struct {
 	N    int
 	ETag string
+	// CkAlgo / Ck: the part's checksum (crc32, crc32c, sha1, sha256, crc64nvme), sent as <Checksum...>
+	CkAlgo, Ck string
 }
 
 func CompleteXML(parts []CPart) []byte {
 	var b strings.Builder
 	b.WriteString(`<CompleteMultipartUpload xmlns="http://s3.amazonaws.com/doc/2006-03-01/">`)
 	for _, p := range parts {
-		fmt.Fprintf(&b, "<Part><PartNumber>%d</PartNumber><ETag>%s</ETag></Part>", p.N, xmlEsc(p.ETag))
+		ck := ""
+		if p.CkAlgo != "" && p.Ck != "" {
+			el := "Checksum" + strings.ToUpper(p.CkAlgo)
+			ck = "<" + el + ">" + xmlEsc(p.Ck) + "</" + el + ">"
+		}
+		fmt.Fprintf(&b, "<Part><PartNumber>%d</PartNumber><ETag>%s</ETag>%s</Part>", p.N, xmlEsc(p.ETag), ck)
 	}
 	b.WriteString(`</CompleteMultipartUpload>`)
 	return []byte(b.String())
